@@ -13,6 +13,7 @@ import (
 	"sort"
 	"strings"
 	"sync"
+	"syscall"
 	"time"
 
 	"github.com/deckhouse/deckhouse/pkg/log"
@@ -27,11 +28,23 @@ import (
 )
 
 // Node is a file (Dir=false, Mode = permission bits) or a directory.
+// Kind "link": a symbolic link; To names what it points to: a path relative to the hooks directory
+// ("lib/multicall.sh", possibly naming a directory, another link or nothing) or "^/<name>" = an entry of
+// the directory <tmp>/outside, out of the tree (see outsideEntries).  Kind "fifo": a named pipe with
+// permission bits Mode.  The T* fields (what the link resolves to) are filled in by Run (resolveLinks)
+// and checked against os.Stat on the tree built on disk.
 type Node struct {
 	Name     string `json:"name"`
 	Dir      bool   `json:"dir,omitempty"`
 	Mode     int    `json:"mode,omitempty"`
 	Children []Node `json:"children,omitempty"`
+	Kind     string `json:"kind,omitempty"`
+	To       string `json:"to,omitempty"`
+	TKind    string `json:"tkind,omitempty"` // file | dir | dangling | fifo
+	TMode    int    `json:"tmode,omitempty"`
+	TCode    int    `json:"tcode,omitempty"`
+	TNoStart bool   `json:"tnostart,omitempty"` // the target is a script that cannot be started
+	Text     string `json:"text,omitempty"`     // the text of the link as written
 }
 
 // Beh: what the file at Path (relative to the hooks directory) does on --config.
@@ -224,6 +237,21 @@ func build(dir, rel string, nodes []Node, in *Input, logPath string) error {
 			}
 			continue
 		}
+		if n.Kind == "link" {
+			if err := os.Symlink(n.Text, p); err != nil {
+				return err
+			}
+			continue
+		}
+		if n.Kind == "fifo" {
+			if err := syscall.Mkfifo(p, uint32(n.Mode)); err != nil {
+				return err
+			}
+			if err := os.Chmod(p, os.FileMode(n.Mode)); err != nil {
+				return err
+			}
+			continue
+		}
 		content := ""
 		if in.Init {
 			var b *Beh
@@ -275,10 +303,22 @@ func Run(in Input) Observation {
 	real := in
 	real.Nodes = expandNodes(in.Nodes, elements(wd), nil)
 	real.Beh = expandBeh(in.Beh, elements(wd))
+	resolveLinks(real.Nodes, real.Beh)
+	resolveLinks(o.SymNodes, o.SymBeh)
+	if err := buildOutside(filepath.Join(tmp, "outside"), logPath); err != nil {
+		o.Broken = "outside: " + err.Error()
+		return o
+	}
 	if err := build(wd, "", real.Nodes, &real, logPath); err != nil {
 		o.Broken = "build: " + err.Error()
 		return o
 	}
+	if msg := checkKinds(wd, real.Nodes); msg != "" {
+		o.Broken = "kinds: " + msg
+		return o
+	}
+	noStart := map[string]bool{}
+	collectNoStart(real.Nodes, "", noStart)
 
 	paths, err := utils_file.RecursiveGetExecutablePaths(wd)
 	if err != nil {
@@ -337,10 +377,15 @@ func Run(in Input) Observation {
 			for _, b := range real.Beh {
 				// (the file this harness wrote for b, not any path that merely ends like it: with the hooks
 				// directory's name repeated below it, "hooks/a" is also the end of <parent>/hooks/a)
-				if b.Code == 1 && b.Variant%5 >= 3 && m[1] == wd+"/"+b.Path {
+				if b.Code == 1 && b.Variant%5 >= 3 && m[1] == wd+"/"+b.Path && !noStart[b.Path] {
 					io.Asked = append(io.Asked, sym(m[1]))
 					break
 				}
+			}
+			// likewise an entry that execve refuses (FIFO, link to a directory / to nothing / to a file without
+			// execute bits / to an un-startable script)
+			if rel := strings.TrimPrefix(m[1], wd+"/"); rel != m[1] && noStart[rel] {
+				io.Asked = append(io.Asked, sym(m[1]))
 			}
 		}
 	}
@@ -369,10 +414,24 @@ func Run(in Input) Observation {
 // ---- rendering ----
 
 func coqNode(n Node) string {
-	if n.Dir {
-		return fmt.Sprintf("Dir %s %s", core.CoqBytes(n.Name), core.CoqList(n.Children, coqNode))
+	switch {
+	case n.Dir:
+		return fmt.Sprintf("XDir %s %s", core.CoqBytes(n.Name), core.CoqList(n.Children, coqNode))
+	case n.Kind == "link":
+		t := "TDangling"
+		switch n.TKind {
+		case "file":
+			t = fmt.Sprintf("(TFile %d %d)", n.TMode, n.TCode)
+		case "dir":
+			t = "TDir"
+		case "fifo":
+			t = "TFifo"
+		}
+		return fmt.Sprintf("XLink %s %s", core.CoqBytes(n.Name), t)
+	case n.Kind == "fifo":
+		return fmt.Sprintf("XFifo %s %d", core.CoqBytes(n.Name), n.Mode)
 	}
-	return fmt.Sprintf("File %s %d", core.CoqBytes(n.Name), n.Mode)
+	return fmt.Sprintf("XFile %s %d", core.CoqBytes(n.Name), n.Mode)
 }
 
 func coqPaths(ps []string) string { return core.CoqList(ps, core.CoqBytes) }
@@ -428,7 +487,7 @@ func Render(in Input, obs *Observation, crash string) core.Case {
 	if o.Init != nil {
 		initObs = fmt.Sprintf("(Some (mkInitObs %s %d %s %s))", coqPaths(o.Init.Asked), o.Init.Status, core.CoqBytes(o.Init.Named), coqPaths(o.Init.Names))
 	}
-	inputTerm := fmt.Sprintf("mkInput %s %s %s %s %s", core.CoqBytes(symParent), core.CoqBytes(in.Root),
+	inputTerm := fmt.Sprintf("mkXInput %s %s %s %s %s", core.CoqBytes(symParent), core.CoqBytes(in.Root),
 		core.CoqList(nodes, coqNode), behs, core.CoqBool(in.Init))
 	index := core.CoqList(o.Index, func(e IndexEntry) string {
 		return fmt.Sprintf("(%s, %s)", core.CoqBytes(e.Name), core.CoqBytes(e.Path))
@@ -494,6 +553,7 @@ func Render(in Input, obs *Observation, crash string) core.Case {
 		c.Tags = append(c.Tags, "has:exec-file-with-excluded-ext")
 	}
 	c.Tags = append(c.Tags, nameTags(nodes)...)
+	c.Tags = append(c.Tags, kindTags(nodes, o.Paths)...)
 	if hasName(nodes, func(n Node) bool { return !n.Dir && n.Mode&0o111 != 0 && n.Mode&0o100 == 0 }) {
 		c.Tags = append(c.Tags, "has:group/other-x-only")
 	}
@@ -734,7 +794,7 @@ func withInit(in Input, beh ...Beh) Input  { in.Init = true; in.Beh = beh; retur
 // Corpus: witnesses and past failures; runs first.
 func Corpus() []Input {
 	// the file-name rule (seeded change C20-6): names that end in the LETTERS of an excluded extension, first
-	return append(namesCorpus(), corpusTrees()...)
+	return append(append(namesCorpus(), corpusTrees()...), kindsCorpus()...)
 }
 
 func corpusTrees() []Input {
@@ -836,15 +896,18 @@ func Gen(r *core.Rng, tier string) ([]core.In[Input], bool) {
 	}
 	g := &gen{r: r}
 	nTrees, nInit, nNested := 150, 30, 60
+	nKinds := 70
 	sysRoots, sysKs, sysReps := []string{"hooks"}, chainLens, 2
 	nNames, seps, exLen := 120, sepQuick, 4
 	switch tier {
 	case "thorough":
 		nTrees, nInit, nNested = 5000, 600, 3000
+		nKinds = 4000
 		sysRoots, sysKs, sysReps = []string{"hooks", "h", "lib", ".h"}, []int{1, 2, 3, 4, 5, 6, 99}, 3
 		nNames, seps, exLen = 8000, sepThorough(), 5
 	case "search":
 		nTrees, nInit, nNested = 1500, 150, 800
+		nKinds = 1500
 		sysReps = 3
 		nNames = 1500
 	}
@@ -882,6 +945,13 @@ func Gen(r *core.Rng, tier string) ([]core.In[Input], bool) {
 	for i := 0; i < nNames; i++ {
 		ins = append(ins, core.In[Input]{Input: g.namesRandom(), Stream: "names-random"})
 	}
+	// entry kinds (after the older streams, see above): symbolic links and FIFOs in every position
+	for _, c := range kindsSystematic(tier == "thorough") {
+		ins = append(ins, core.In[Input]{Input: c, Stream: "kinds-systematic"})
+	}
+	for i := 0; i < nKinds; i++ {
+		ins = append(ins, core.In[Input]{Input: g.kindsRandom(), Stream: "kinds-random"})
+	}
 	if tier == "thorough" || tier == "search" {
 		maxNodes := 4
 		if tier == "search" {
@@ -909,6 +979,7 @@ func Extra() map[string]any {
 			}
 			return m
 		}(),
+		"kinds_scope":      kindsScope,
 		"nested_scope":     "nested-systematic: [mod/](<chain>/){1..reps}{b.sh,start.sh} + a file x per level + siblings named like the paths with the chain cut out; <chain> = the last k elements of the hooks directory's own absolute path, k in 1,2,3,whole (thorough: 1..6,whole; roots hooks,h,lib,.h; reps <= 3), 4 scenarios each (discovery, Init ok, Init with the innermost hook invalid, Init with the glued sibling failing); nested-random: 1-3 chains at random places of a random forest",
 		"exhaustive_scope": "thorough: every forest with <= 4 nodes (files 0644/0755, directories) over the names " + strings.Join(exNames, ",") + " with sibling names distinct, under the roots hooks and lib",
 		"name_pool":        namePool,
@@ -919,6 +990,6 @@ func Extra() map[string]any {
 
 var Driver = core.Driver[Input, Observation]{
 	Spec: core.Spec{Property: "C20", Imports: []string{"C20_Model", "C20_Spec", "C20_Corr"}, Corr: "C20_Corr", Triggers: nil, ShrinkKey: "nodes",
-		Rule: "directory trees created on disk (depth <= 4, names from a pool with lib, hidden names, excluded and near-excluded extensions, collisions across directories, 13 modes, hooks directory itself named lib/hidden in ~40%); trees in which the hooks directory's own path (last element, trailing elements, whole absolute path) occurs again below it, once or several times, with siblings named like a cut path (streams nested-systematic, nested-random); by-name index looked up after every Init run (GetHook for every loaded name and for the relative path of every discovered file); file names around every excluded extension, character by character (streams names-systematic, names-exhaustive, names-random; every file of every tree judged one by one by C20_Spec.P_files); streams: corpus, random (RecursiveGetExecutablePaths only), init (real hook.Manager.Init on bash scripts that log their --config invocation; 65% of them with misbehaving files), exhaustive (thorough); non-trivial = at least one hook discovered and at least one file left out; distinct = distinct input term"},
+		Rule: "entry kinds: real symbolic links and FIFOs on disk in every position (top level, nested, below lib and hidden directories) pointing to scripts below lib / hidden directories / next to them / out of the tree, to directories, to nothing, to files without execute bits, to other links (streams kinds-systematic, kinds-random; what each link resolves to is checked with os.Stat; every entry judged by kind by C20_Spec.PX_kinds); directory trees created on disk (depth <= 4, names from a pool with lib, hidden names, excluded and near-excluded extensions, collisions across directories, 13 modes, hooks directory itself named lib/hidden in ~40%); trees in which the hooks directory's own path (last element, trailing elements, whole absolute path) occurs again below it, once or several times, with siblings named like a cut path (streams nested-systematic, nested-random); by-name index looked up after every Init run (GetHook for every loaded name and for the relative path of every discovered file); file names around every excluded extension, character by character (streams names-systematic, names-exhaustive, names-random; every file of every tree judged one by one by C20_Spec.P_files); streams: corpus, random (RecursiveGetExecutablePaths only), init (real hook.Manager.Init on bash scripts that log their --config invocation; 65% of them with misbehaving files), exhaustive (thorough); non-trivial = at least one hook discovered and at least one file left out; distinct = distinct input term"},
 	Gen: Gen, Run: Run, Render: Render, PerShard: 30, Workers: 8, CaseTimout: 30 * time.Second, Extra: Extra,
 }
